@@ -93,6 +93,12 @@ func script(r Req, p string) ledger.RunScript {
 	if r.Mode == "meta" {
 		decl = append(decl, "\taccount $payer = meta(@m, \"payer\")\n")
 	}
+	if r.Mode == "bal" && len(r.Postings) > 0 {
+		// the amount is the balance of the source, read through a balance() variable
+		decl = append(decl, fmt.Sprintf("\tmonetary $b = balance(@%s, %s)\n", real(r.Postings[0].Src), asset))
+		body.Reset()
+		fmt.Fprintf(&body, "send $b (\n\tsource = @%s\n\tdestination = @%s\n)\n", real(r.Postings[0].Src), real(r.Postings[0].Dst))
+	}
 	if len(decl) > 0 {
 		sb.WriteString("vars {\n" + strings.Join(decl, "") + "}\n")
 	}
@@ -133,6 +139,8 @@ func classify(err error) string {
 		return "not-found"
 	case machine.IsInsufficientFundError(err):
 		return "insufficient"
+	case errors.Is(err, &machine.ErrNegativeAmount{}):
+		return "negative-amount"
 	case errors.Is(err, &machine.ErrMissingMetadata{}):
 		return "missing-metadata"
 	case strings.Contains(err.Error(), "already taken"):
